@@ -48,18 +48,20 @@ pub const REAL_TABLE: [(i64, i32); 27] = [
     (1483228826, 27),
 ];
 
-fn probe_zone(leaps: &LeapTable, t: i64) -> ZoneSpec {
-    ZoneSpec {
-        transitions: vec![(t, 1), (t.saturating_add(1_000_000_000_000), 0)],
-        types: vec![TypeSpec::new(0, false, Some("AAA")), TypeSpec::new(3600, true, Some("BBB"))],
-        leaps: leaps.clone(),
-        rule: None,
-    }
+/// offsets (A, B) of the probe zone: A before the transition, B = A + 3600 after it. Shape 0 keeps A on UTC; shapes 1
+/// and 2 put both readings of a local time away from UTC, west and east (the candidates the search has to convert
+/// then lie on either side of a nearby leap record).
+pub const SHAPES: [(i32, i32); 3] = [(0, 3600), (-7200, -3600), (3600, 7200)];
+
+fn probe_zone(leaps: &LeapTable, t: i64, shape: usize) -> ZoneSpec {
+    let (oa, ob) = SHAPES[shape];
+    ZoneSpec { transitions: vec![(t, 1), (t.saturating_add(1_000_000_000_000), 0)], types: vec![TypeSpec::new(oa, false, Some("AAA")), TypeSpec::new(ob, true, Some("BBB"))], leaps: leaps.clone(), rule: None }
 }
 
 /// returns the instant the search reported for the transition, if any
-pub fn check_t(l: &mut Local, leaps: &LeapTable, t: i64) -> (u64, Option<i64>) {
-    let z = probe_zone(leaps, t);
+pub fn check_t(l: &mut Local, leaps: &LeapTable, t: i64, shape: usize) -> (u64, Option<i64>) {
+    let (oa, ob) = SHAPES[shape];
+    let z = probe_zone(leaps, t, shape);
     let b = match build(&z) {
         Ok(b) => b,
         Err(e) => {
@@ -119,8 +121,8 @@ pub fn check_t(l: &mut Local, leaps: &LeapTable, t: i64) -> (u64, Option<i64>) {
             _ => {}
         }
     }
-    // (inverse) a search inside B's gap: local time X + 1800 (A shows X, B shows X + 3600)
-    let c = x + 1800;
+    // (inverse) a search inside B's gap: local time X + A + 1800 (A shows X + A, B shows X + A + 3600)
+    let c = x + oa as i64 + 1800;
     let cv = cal::civil_from_unix(c);
     let mut reported = None;
     match facade::find(cv.year as i32, cv.month, cv.day, cv.hour, cv.minute, cv.second, 0, tz) {
@@ -145,10 +147,16 @@ pub fn check_t(l: &mut Local, leaps: &LeapTable, t: i64) -> (u64, Option<i64>) {
                     "leap seconds: search inside the gap does not report exactly the gap",
                     format!("DateTime::find({}) with transition A->B at count {} and leap table {:?}", cv, t, leaps.0),
                     format!("[Skipped at UTC {}]", x),
-                    format!("{} entries: {:?}", v.len(), v.iter().map(|k| match k {
-                        FoundDateTimeKind::Normal(d) => format!("Normal@{}", d.unix_time()),
-                        FoundDateTimeKind::Skipped { before_transition, after_transition } => format!("Skipped@{}/{}", before_transition.unix_time(), after_transition.unix_time()),
-                    }).collect::<Vec<_>>()),
+                    format!(
+                        "{} entries: {:?}",
+                        v.len(),
+                        v.iter()
+                            .map(|k| match k {
+                                FoundDateTimeKind::Normal(d) => format!("Normal@{}", d.unix_time()),
+                                FoundDateTimeKind::Skipped { before_transition, after_transition } => format!("Skipped@{}/{}", before_transition.unix_time(), after_transition.unix_time()),
+                            })
+                            .collect::<Vec<_>>()
+                    ),
                 );
             } else {
                 let r = inst[0];
@@ -165,7 +173,7 @@ pub fn check_t(l: &mut Local, leaps: &LeapTable, t: i64) -> (u64, Option<i64>) {
                 let at = facade::lookup(tz, r).map(|g| g.ut_offset());
                 let before = facade::lookup(tz, r - 1).map(|g| g.ut_offset());
                 calls += 2;
-                if at != Ok(3600) || before != Ok(0) {
+                if at != Ok(ob) || before != Ok(oa) {
                     l.violation(
                         "leap seconds: the instant reported by the search is not the instant at which the forward lookup switches type",
                         format!("transition A->B at count {} and leap table {:?}: search reports UTC {}", t, leaps.0, r),
@@ -176,6 +184,18 @@ pub fn check_t(l: &mut Local, leaps: &LeapTable, t: i64) -> (u64, Option<i64>) {
             }
         }
         Err(e) => l.violation("leap seconds: search inside the gap fails", format!("DateTime::find({}) with transition at count {} and leap table {:?}", cv, t, leaps.0), "Ok".into(), format!("Err({:?})", e)),
+    }
+    // (inverse, at the edges) the last local second before the gap, the first and last inside it, the first after it,
+    // and the same around the local time that B shows one hour later: judged by the search oracle of C05 / C06 with
+    // the model's forward lookup as the clock, so that every candidate reading is converted on its own
+    let mut stale = vec![None; 6];
+    for c in [x + oa as i64 - 1, x + oa as i64, x + ob as i64 - 1, x + ob as i64, x + ob as i64 + 3600] {
+        let q = crate::mon::c05::Search::from_civil_seconds(c, 0, false);
+        calls += crate::mon::c05::check_search(l, crate::mon::c05::Which::C06, &zm, tz, &q, &mut stale);
+        calls += crate::mon::c05::check_search(l, crate::mon::c05::Which::C05, &zm, tz, &q, &mut stale);
+    }
+    if shape != 0 && leaps.0.iter().any(|&(li, _)| li != t && (li - t).abs() <= 7200) {
+        l.class("leap_record_within_the_offsets_of_the_transition");
     }
     (calls, reported)
 }
@@ -190,6 +210,21 @@ pub fn check_table(l: &mut Local, leaps: &LeapTable, extra_ts: &[i64]) -> u64 {
     ts.extend_from_slice(extra_ts);
     ts.sort();
     ts.dedup();
+    // transitions that are not on a record but closer to it than the zone's offsets, on either side
+    let mut near: Vec<i64> = vec![];
+    for &(li, _) in leaps.0.iter().take(3).chain(leaps.0.last()) {
+        for d in [600i64, 1800, 3599, 3600, 3601, 7199, 7200, 7201] {
+            near.push(li + d);
+            near.push(li - d);
+        }
+        near.extend([li - 1, li, li + 1]);
+    }
+    near.sort();
+    near.dedup();
+    if cfg!(miri) {
+        // interpreted slices: one record, the two distances that matter most
+        near = leaps.0.iter().take(1).flat_map(|&(li, _)| [li - 1800, li + 1800, li - 3599, li + 3599]).collect();
+    }
     let mut calls = 0;
     let mut last: Option<(i64, i64)> = None;
     if leaps.0.windows(2).any(|w| w[1].1 < w[0].1) || leaps.0.first().map(|r| r.1 < 0).unwrap_or(false) {
@@ -198,8 +233,13 @@ pub fn check_table(l: &mut Local, leaps: &LeapTable, extra_ts: &[i64]) -> u64 {
     if leaps.0.windows(2).any(|w| w[1].0 - w[0].0 == 2_419_199) {
         l.class("minimal_spacing");
     }
+    for shape in [1usize, 2] {
+        for &t in &near {
+            calls += check_t(l, leaps, t, shape).0;
+        }
+    }
     for &t in &ts {
-        let (c, rep) = check_t(l, leaps, t);
+        let (c, rep) = check_t(l, leaps, t, 0);
         calls += c;
         if let Some(r) = rep {
             if let Some((pt, pr)) = last {
@@ -230,6 +270,7 @@ pub fn run(ctx: &Ctx) -> Report {
         "table_with_negative_leap",
         "minimal_spacing",
         "real_27_record_table",
+        "leap_record_within_the_offsets_of_the_transition",
     ];
     if let Err(e) = crate::mon::c03::self_tests() {
         rep.inconclusive.push(format!("model self-test failed: {}", e));
